@@ -83,6 +83,15 @@ def gen_cases(ctx):
             for tr in [None] + gx:
                 for tf in ("none", "flood"):
                     yield {"tc": tc, "tr": tr, "traffic": tf, "progress": [], "raise_at": None, "T": Tx}
+    # 1c. long deadlines (the default 60 s, a long-poll 300 s, the ten-second neighbourhood): a token fired in a quiet
+    #     spell is noticed within one polling interval, whatever the deadline is
+    for Tx in (9.0, 11.0, 30.0, 60.0, 300.0):
+        for tc in (0.3, 0.75, 1.0, 4.9, round(Tx / 2, 2), round(Tx - 0.7, 2)):
+            for tr in (None, round(tc + 0.2, 3), round(tc + 2.0, 3)):
+                for tf in ("none", "burst"):
+                    if tr is not None and tr >= Tx:
+                        continue
+                    yield {"tc": tc, "tr": tr, "traffic": tf, "progress": [], "raise_at": None, "T": Tx}
     # 2. progress streams
     prog_kinds = ["right", "foreign", "right_missing", "right_total_msg", "foreign_int", "right_null_params", "right_zero"]
     for tr in (None, 0.3, 0.8, 1.0, T - 0.01):
